@@ -7,7 +7,7 @@ for EVERY configuration, keeping the value as a linear form k*x + c.
 import ast
 import math
 
-from ..src import walk, calls, call_name, dotted, const, loc, unparse, norm, AnchorError, ExtractError, last_attr
+from ..src import walk, call_name, dotted, loc, unparse, AnchorError, ExtractError
 from ..peval import Evaluator, Lin, Obj, Unknown, Raised
 
 UTIL = "wntr/epanet/util.py"
@@ -16,8 +16,10 @@ EXPLANATION = (
     "Partial evaluation of HydParam/QualParam._to_si/_from_si in wntr/epanet/util.py for every member x every FlowUnits member x "
     "darcy_weisbach x MassUnits x reaction order, with the value kept as a linear form k*x+c: checks c = 0 (linear), k_to*k_from = 1 "
     "(inverse), and k_to equal to the physical reference constant; FlowUnits/MassUnits tables are constant-folded and compared with the "
-    "definitions (ft3, gal, Imp gal, acre-ft; EN ids); is_traditional/is_metric membership lists; container handling (dict/list branches) "
-    "is compared across the four sibling methods; to_si/from_si dispatch forwards every flag. The configuration space is enumerated "
+    "definitions (ft3, gal, Imp gal, acre-ft; EN ids); is_traditional/is_metric membership lists; container handling is decided by interpreting "
+    "each of the four methods on a concrete dict / list / array / DataFrame of distinctly scaled symbolic values (dict in -> dict out with the same keys, "
+    "list in -> list out, every element converted with the scalar factor, no TypeError from a 0-d object array) and comparing the four siblings; "
+    "to_si/from_si dispatch forwards every flag. The configuration space is enumerated "
     "completely (exhaustive).")
 RULE_TEXT = ("one instance = one (method, parameter, flow unit, flags) configuration, or one table entry / container branch; "
              "distinct = distinct (rule, configuration) pairs")
@@ -120,6 +122,402 @@ def membership_list(repo, prop):
     return names, fn
 
 
+# --------------------------------------------------------------------------------------------- container-aware evaluation (R-C17-3)
+class ProgError(Exception):
+    """the interpreted method itself raises on this input (a faithfully modelled TypeError / KeyError ...)."""
+
+
+class TypeTok(object):
+    """a class used as the second argument of isinstance()."""
+
+    def __init__(self, name):
+        self.name = name
+
+    def __repr__(self):
+        return "<type %s>" % self.name
+
+
+class Arr(object):
+    """1-d numpy array of scalars (numbers or linear forms)."""
+
+    def __init__(self, elts):
+        self.elts = list(elts)
+
+    def __iter__(self):
+        return iter(list(self.elts))
+
+    def __len__(self):
+        return len(self.elts)
+
+    def __repr__(self):
+        return "array(%r)" % (self.elts,)
+
+
+class Arr0(object):
+    """what np.array() makes of something that is not a sequence (a dict view, a dict, an iterator): a 0-d object array.
+    Arithmetic with a number is delegated to the wrapped object (TypeError), it cannot be iterated and has no len()."""
+
+    def __init__(self, obj):
+        self.obj = obj
+
+    def __repr__(self):
+        return "array(%s, dtype=object)" % type(self.obj).__name__
+
+
+class Frame(object):
+    """pandas.DataFrame: labels + values; arithmetic with a scalar is elementwise and keeps the labels."""
+
+    def __init__(self, values, index, columns):
+        self.values, self.index, self.columns = values, index, columns
+
+    def __repr__(self):
+        return "DataFrame(%r)" % (self.values,)
+
+
+_BUILTIN_TYPES = ("dict", "list", "tuple", "set", "str", "bool", "int", "float")
+_LIB_TYPES = {"DataFrame": ("pd", "pandas"), "Series": ("pd", "pandas"), "ndarray": ("np", "numpy"),
+              "Mapping": ("collections", "typing", "abc"), "MutableMapping": ("collections", "typing", "abc"),
+              "Sequence": ("collections", "typing", "abc"), "MutableSequence": ("collections", "typing", "abc"),
+              "Number": ("numbers",), "Real": ("numbers",)}
+_NP_ARRAY = ("array", "asarray", "asanyarray", "ascontiguousarray")
+
+
+def type_token(d):
+    """TypeTok for the dotted name of a class the container code may test against, else None."""
+    parts = d.split(".")
+    if len(parts) == 1 and d in _BUILTIN_TYPES:
+        return TypeTok(d)
+    roots = _LIB_TYPES.get(parts[-1])
+    if roots and (len(parts) == 1 or parts[0] in roots):
+        return TypeTok(parts[-1])
+    return None
+
+
+def _scalar(v):
+    return isinstance(v, Lin) or (isinstance(v, (int, float)) and not isinstance(v, bool))
+
+
+def is_instance(v, tok):
+    if isinstance(tok, (list, tuple)):
+        return any(is_instance(v, t) for t in tok)
+    if not isinstance(tok, TypeTok):
+        raise Unknown("isinstance against %r" % (tok,))
+    t = tok.name
+    if t in ("dict", "Mapping", "MutableMapping"):
+        return isinstance(v, dict)
+    if t in ("list", "MutableSequence"):
+        return isinstance(v, list)
+    if t == "tuple":
+        return isinstance(v, tuple)
+    if t == "Sequence":
+        return isinstance(v, (list, tuple, str))
+    if t == "set":
+        return isinstance(v, (set, frozenset))
+    if t == "str":
+        return isinstance(v, str)
+    if t == "bool":
+        return isinstance(v, bool)
+    if t == "int":
+        return isinstance(v, int)
+    if t in ("float", "Real", "Number"):
+        return isinstance(v, (float, Lin)) or (t != "float" and isinstance(v, int))   # the symbolic scalar is a Python float
+    if t == "ndarray":
+        return isinstance(v, (Arr, Arr0))
+    if t == "DataFrame":
+        return isinstance(v, Frame)
+    if t == "Series":
+        return False            # no Series is ever handed in
+    raise Unknown("isinstance against %s not modelled" % t)
+
+
+class CEval(Evaluator):
+    """peval.Evaluator + the container vocabulary of the conversion methods: real dicts / lists / tuples (and dict views), 1-d arrays,
+    the 0-d object array numpy builds from a non-sequence, a DataFrame stand-in, isinstance against the usual classes, loops and
+    comprehensions over those, and calls to functions / methods of the analysed module (interpreted, so a helper that the normaliser
+    did not inline is followed all the same).  Whatever is outside raises Unknown (-> could not analyse); an operation that raises in
+    Python raises ProgError (-> the rule decides)."""
+
+    def __init__(self, env, class_attr, resolve_fn, depth=0):
+        def cattr(d):
+            t = type_token(d)
+            if t is not None:
+                return t
+            return class_attr(d)
+        Evaluator.__init__(self, env, cattr, None, self._attr)
+        self.user_class_attr = class_attr
+        self.resolve_fn = resolve_fn        # f(qualname) -> FunctionDef of the analysed module or None
+        self.depth = depth
+
+    # ---- values
+    def _attr(self, base, attr):
+        if isinstance(base, Frame) and attr in ("values", "index", "columns"):
+            return getattr(base, attr)
+        return NotImplemented
+
+    def e_Tuple(self, n):
+        return tuple(self.ev(e) for e in n.elts)
+
+    def e_Dict(self, n):
+        if any(k is None for k in n.keys):
+            raise Unknown("dict unpacking")
+        return {self.ev(k): self.ev(v) for k, v in zip(n.keys, n.values)}
+
+    def iterate(self, v, what="iteration"):
+        if isinstance(v, (list, tuple, dict, Arr, set, frozenset, str)) or type(v).__name__ in ("dict_keys", "dict_values", "dict_items"):
+            return list(v)
+        if isinstance(v, Frame):
+            return list(v.columns)
+        if isinstance(v, Arr0):
+            raise ProgError("TypeError: iteration over a 0-d array (%s of %r)" % (what, v))
+        if _scalar(v) or v is None or isinstance(v, bool):
+            raise ProgError("TypeError: %s of a non-iterable %s" % (what, "float" if isinstance(v, Lin) else type(v).__name__))
+        raise Unknown("%s of %r" % (what, v))
+
+    def truth(self, v):
+        if isinstance(v, Arr):
+            if len(v) > 1:
+                raise ProgError("ValueError: truth value of an array with more than one element")
+            raise Unknown("truth value of a short array")
+        if isinstance(v, (Arr0, Frame)):
+            raise Unknown("truth value of %r" % (v,))
+        return Evaluator.truth(self, v)
+
+    def e_Subscript(self, n):
+        base = self.ev(n.value)
+        if isinstance(n.slice, ast.Slice):
+            key = slice(*[None if x is None else self.ev(x) for x in (n.slice.lower, n.slice.upper, n.slice.step)])
+            if not all(x is None or (isinstance(x, int) and not isinstance(x, bool)) for x in (key.start, key.stop, key.step)):
+                raise Unknown("slice bounds: %s" % unparse(n))
+            if isinstance(base, Arr):
+                return Arr(base.elts[key])
+            if isinstance(base, dict):
+                raise ProgError("TypeError: unhashable type: 'slice'")
+        else:
+            key = self.ev(n.slice)
+        if isinstance(base, Arr):
+            base = base.elts
+        if isinstance(base, (list, tuple, dict)):
+            try:
+                return base[key]
+            except (KeyError, IndexError, TypeError) as e:
+                raise ProgError("%s: %s" % (type(e).__name__, e))
+        raise Unknown("subscript of %r" % (base,))
+
+    def assign(self, t, v):
+        if isinstance(t, ast.Subscript) and not isinstance(t.slice, ast.Slice):
+            base, key = self.ev(t.value), self.ev(t.slice)
+            if isinstance(base, Arr):
+                base = base.elts
+            if isinstance(base, (list, dict)):
+                try:
+                    base[key] = v
+                except (IndexError, TypeError) as e:
+                    raise ProgError("%s: %s" % (type(e).__name__, e))
+                return
+            raise Unknown("item store on %r" % (base,))
+        if isinstance(t, (ast.Tuple, ast.List)) and not isinstance(v, (list, tuple)):
+            v = self.iterate(v, "unpacking")
+        Evaluator.assign(self, t, v)
+
+    def _comp(self, gens, emit):
+        saved = dict(self.env)
+
+        def rec(i):
+            if i == len(gens):
+                emit()
+                return
+            g = gens[i]
+            if g.is_async:
+                raise Unknown("async comprehension")
+            for x in self.iterate(self.ev(g.iter)):
+                self.assign(g.target, x)
+                if all(self.truth(self.ev(c)) for c in g.ifs):
+                    rec(i + 1)
+        try:
+            rec(0)
+        finally:
+            self.env = saved
+
+    def e_ListComp(self, n):
+        out = []
+        self._comp(n.generators, lambda: out.append(self.ev(n.elt)))
+        return out
+
+    e_GeneratorExp = e_ListComp
+
+    def e_DictComp(self, n):
+        out = {}
+
+        def emit():
+            k = self.ev(n.key)
+            out[k] = self.ev(n.value)
+        self._comp(n.generators, emit)
+        return out
+
+    # ---- arithmetic
+    def binop(self, op, a, b, n):
+        for x, y in ((a, b), (b, a)):
+            if isinstance(x, Arr0):
+                raise ProgError("TypeError: unsupported operand type(s) for %s: '%s' and '%s' (%r is a 0-d object array)"
+                                % (type(op).__name__, type(x.obj).__name__, "float" if isinstance(y, Lin) else type(y).__name__, x))
+        if isinstance(a, Frame) or isinstance(b, Frame):
+            if isinstance(a, Frame) and isinstance(b, Frame):
+                raise Unknown("DataFrame op DataFrame")
+            f = a if isinstance(a, Frame) else b
+            vals = self.binop(op, a.values if f is a else a, b.values if f is b else b, n)
+            return Frame(vals, f.index, f.columns)
+        if isinstance(a, Arr) or isinstance(b, Arr):
+            if isinstance(a, Arr) and isinstance(b, Arr):
+                if len(a) != len(b):
+                    raise ProgError("ValueError: operands could not be broadcast together")
+                return Arr([self.binop(op, x, y, n) for x, y in zip(a.elts, b.elts)])
+            arr, other = (a, b) if isinstance(a, Arr) else (b, a)
+            if isinstance(other, (list, tuple)):
+                return self.binop(op, Arr(a) if other is a else a, Arr(b) if other is b else b, n)
+            if not _scalar(other):
+                raise Unknown("array arithmetic with %r" % (other,))
+            return Arr([self.binop(op, x, b, n) for x in a.elts] if arr is a else [self.binop(op, a, y, n) for y in b.elts])
+        if isinstance(a, (list, tuple, dict)) or isinstance(b, (list, tuple, dict)):
+            seq, other = (a, b) if isinstance(a, (list, tuple, dict)) else (b, a)
+            if isinstance(op, ast.Mult) and isinstance(seq, (list, tuple)) and isinstance(other, int) and not isinstance(other, bool):
+                return seq * other
+            if isinstance(op, ast.Add) and type(a) is type(b) and isinstance(a, (list, tuple)):
+                return a + b
+            raise ProgError("TypeError: unsupported operand type(s) for %s: '%s' and '%s'" % (
+                type(op).__name__, "float" if isinstance(a, Lin) else type(a).__name__, "float" if isinstance(b, Lin) else type(b).__name__))
+        return Evaluator.binop(self, op, a, b, n)
+
+    # ---- calls
+    def np_array(self, x):
+        if isinstance(x, (list, tuple, Arr)):
+            elts = list(x)
+            if not all(_scalar(e) for e in elts):
+                raise Unknown("np.array of a nested / non-numeric sequence")
+            return Arr(elts)
+        if isinstance(x, Frame):
+            return x.values
+        if _scalar(x):
+            return x                # a 0-d numeric array behaves like the number
+        if isinstance(x, (dict, set, frozenset)) or type(x).__name__ in ("dict_keys", "dict_values", "dict_items"):
+            return Arr0(x)
+        raise Unknown("np.array(%r)" % (x,))
+
+    def builtin(self, name, args, kw, n):
+        if name == "isinstance" and len(args) == 2 and not kw:
+            return is_instance(args[0], args[1])
+        if name in ("list", "tuple") and len(args) <= 1 and not kw:
+            return (list if name == "list" else tuple)(self.iterate(args[0], name + "()") if args else [])
+        if name == "dict" and len(args) <= 1:
+            out = {}
+            if args:
+                src = args[0]
+                for pair in (list(src.items()) if isinstance(src, dict) else self.iterate(src, "dict()")):
+                    pair = self.iterate(pair, "dict() element")
+                    if len(pair) != 2:
+                        raise ProgError("ValueError: dictionary update sequence element has length %d; 2 is required" % len(pair))
+                    out[pair[0]] = pair[1]
+            out.update(kw)
+            return out
+        if name == "zip" and not kw:
+            return list(zip(*[self.iterate(a, "zip()") for a in args]))
+        if name == "enumerate" and len(args) == 1 and not kw:
+            return list(enumerate(self.iterate(args[0], "enumerate()")))
+        if name == "len" and len(args) == 1 and not kw:
+            if isinstance(args[0], Arr0) or _scalar(args[0]):
+                raise ProgError("TypeError: len() of unsized object")
+            if isinstance(args[0], Frame):
+                return len(self.iterate(args[0].index))
+            return len(self.iterate(args[0], "len()"))
+        if name == "range" and not kw and all(isinstance(a, int) for a in args):
+            return list(range(*args))
+        return NotImplemented
+
+    def method(self, recv, attr, args, kw, n):
+        if isinstance(recv, dict) and attr in ("keys", "values", "items", "copy") and not args and not kw:
+            return getattr(recv, attr)()
+        if isinstance(recv, dict) and attr == "get" and 1 <= len(args) <= 2 and not kw:
+            return recv.get(*args)
+        if isinstance(recv, list) and attr == "append" and len(args) == 1 and not kw:
+            recv.append(args[0])
+            return None
+        if isinstance(recv, (list, Arr)) and attr == "copy" and not args:
+            return list(recv) if isinstance(recv, list) else Arr(recv.elts)
+        if isinstance(recv, Arr) and attr == "tolist" and not args:
+            return list(recv.elts)
+        if isinstance(recv, Obj) and recv.cls:
+            fn = self.resolve_fn("%s.%s" % (recv.cls, attr))
+            if fn is not None:
+                return self.call_fn(fn, [recv] + args, kw)
+        raise Unknown("call %s not modelled" % unparse(n))
+
+    def call_fn(self, fn, args, kw):
+        if self.depth > 12:
+            raise Unknown("helper calls nested too deep at %s" % fn.name)
+        a = fn.args
+        if a.vararg or a.kwarg or fn.decorator_list:
+            raise Unknown("helper %s: *args / **kwargs / decorators" % fn.name)
+        params = [p.arg for p in a.posonlyargs + a.args]
+        if len(args) > len(params):
+            raise ProgError("TypeError: %s() takes %d positional arguments but %d were given" % (fn.name, len(params), len(args)))
+        env = dict(zip(params, args))
+        names = params + [p.arg for p in a.kwonlyargs]
+        for k, v in kw.items():
+            if k not in names or k in env:
+                raise ProgError("TypeError: %s() got an unexpected / repeated keyword argument %r" % (fn.name, k))
+            env[k] = v
+        dev = CEval({}, self.user_class_attr, self.resolve_fn, self.depth + 1)
+        for p, d in list(zip(params[len(params) - len(a.defaults):], a.defaults)) + [(p.arg, d) for p, d in zip(a.kwonlyargs, a.kw_defaults) if d is not None]:
+            if p not in env:
+                env[p] = dev.ev(d)
+        for p in names:
+            if p not in env:
+                raise ProgError("TypeError: %s() missing required argument %r" % (fn.name, p))
+        return CEval(env, self.user_class_attr, self.resolve_fn, self.depth + 1).run(fn.body)
+
+    def e_Call(self, n):
+        f = n.func
+        if any(isinstance(x, ast.Starred) for x in n.args) or any(k.arg is None for k in n.keywords):
+            raise Unknown("star arguments: %s" % unparse(n))
+
+        def argv():
+            return [self.ev(x) for x in n.args], {k.arg: self.ev(k.value) for k in n.keywords}
+        if isinstance(f, ast.Name) and f.id not in self.env:
+            args, kw = argv()
+            r = self.builtin(f.id, args, kw, n)
+            if r is not NotImplemented:
+                return r
+            fn = self.resolve_fn(f.id)
+            if fn is not None:
+                return self.call_fn(fn, args, kw)
+        elif isinstance(f, ast.Attribute):
+            d = dotted(f)
+            root = d.split(".")[0] if d else None
+            if d and root not in self.env:
+                parts = d.split(".")
+                if parts[0] in ("np", "numpy") and len(parts) == 2 and parts[1] in _NP_ARRAY and len(n.args) == 1:
+                    return self.np_array(self.ev(n.args[0]))
+                if parts[0] in ("pd", "pandas") and parts[-1] == "DataFrame":
+                    args, kw = argv()
+                    if len(args) == 1 and set(kw) <= {"index", "columns"}:
+                        return Frame(args[0], kw.get("index"), kw.get("columns"))
+                    raise Unknown("DataFrame constructor form: %s" % unparse(n))
+            else:
+                recv = self.ev(f.value)
+                args, kw = argv()
+                return self.method(recv, f.attr, args, kw, n)
+        return Evaluator.e_Call(self, n)
+
+    # ---- statements
+    def stmt(self, s):
+        if isinstance(s, ast.For):
+            for x in self.iterate(self.ev(s.iter)):
+                self.assign(s.target, x)
+                self.block(s.body)
+            self.block(s.orelse)
+            return
+        Evaluator.stmt(self, s)
+
+
 def run(repo, chk):
     fu = repo.cls(UTIL, "FlowUnits")
     mu = repo.cls(UTIL, "MassUnits")
@@ -188,20 +586,20 @@ def run(repo, chk):
                 return mass_obj(m)
         raise Unknown("unresolved name %s" % d)
 
-    def call_hook(name, n, ev):
-        if name == "isinstance":
-            v = ev.ev(n.args[0])
-            if isinstance(v, Lin):
-                return False          # the symbolic input is a scalar
-            return NotImplemented
-        return NotImplemented
+    def resolve_fn(qual):
+        return repo.func(UTIL, qual) if repo.has_func(UTIL, qual) else None
+
+    def interpret(fn, selfobj, unit, data, **kw):
+        """the value `fn` returns for this configuration and this `data` (CEval: nothing of /repo is executed)."""
+        env = {"self": selfobj, "flow_units": unit, "data": data}
+        env.update(kw)
+        return CEval(env, class_attr, resolve_fn).run(fn.body)
 
     def evaluate(fn, selfobj, unit, **kw):
-        env = {"self": selfobj, "flow_units": unit, "data": Lin(1.0, 0.0)}
-        env.update(kw)
-        ev = Evaluator(env, class_attr, call_hook)
-        body = fn.body
-        r = ev.run(body)
+        try:
+            r = interpret(fn, selfobj, unit, Lin(1.0, 0.0), **kw)
+        except ProgError as e:
+            raise Raised(e)
         if not isinstance(r, Lin):
             raise ExtractError("%s did not return a linear form for %s/%s (%r)" % (fn._qual, selfobj.name, unit.name, r))
         return r
@@ -271,36 +669,100 @@ def run(repo, chk):
     chk.floor("R-C17-1b", 15 * 11 * 2 + 8 * 11 * 4 * 3)
 
     # ---------------------------------------------------------------- R-C17-3 containers
-    shapes = {}
+    # Each of the four methods is interpreted on a concrete dict / list / array / DataFrame whose elements are the symbolic
+    # value scaled by distinct primes (so a permuted, dropped or unconverted element is visible), for every parameter x {US, metric}
+    # unit x flag.  The scalar factor of the same configuration (R-C17-1) says what every element must have become.
+    PRIMES = (2.0, 3.0, 5.0)
+    KEYS = ("n1", "n2", "n3")
+    IDX, COLS = ("row-labels",), ("column-labels",)
+
+    def make_input(kind):
+        elts = [Lin(p, 0.0) for p in PRIMES]
+        if kind == "dict":
+            return dict(zip(KEYS, elts))
+        if kind == "list":
+            return elts
+        if kind == "ndarray":
+            return Arr(elts)
+        return Frame(Arr(elts), IDX, COLS)
+
+    def converted(vals, k):
+        vals = list(vals)
+        return len(vals) == len(PRIMES) and all(isinstance(v, Lin) and v.c == 0 and close(v.k, p * k, 1e-12) for v, p in zip(vals, PRIMES))
+
+    def tname(r):
+        return {"Arr": "ndarray", "Arr0": "ndarray(0-d object)", "Frame": "DataFrame", "Lin": "float"}.get(type(r).__name__, type(r).__name__)
+
+    def outcome(kind, r, k):
+        """(type of the result, None) or (type, what is wrong with it)"""
+        if kind == "dict":
+            if type(r) is not dict:
+                return tname(r), "a dictionary goes in, %r comes out" % (r,)
+            if set(r) != set(KEYS):
+                return "dict", "keys %s instead of the original %s" % (sorted(r, key=repr), list(KEYS))
+            if not converted([r[x] for x in KEYS], k):
+                return "dict", "values are not the converted values of their keys: %r" % (r,)
+            return "dict", None
+        if kind in ("list", "ndarray"):
+            want = {"list": list, "ndarray": Arr}[kind]
+            if type(r) is not want:
+                return tname(r), "a %s goes in, %r comes out" % (kind, r)
+            if not converted(r, k):
+                return kind, "elements are not converted one by one in order: %r" % (r,)
+            return kind, None
+        if not isinstance(r, Frame):
+            return tname(r), "a DataFrame goes in, %r comes out" % (r,)
+        if r.index is not IDX or r.columns is not COLS:
+            return "DataFrame", "labels are not those of the input"
+        if not (isinstance(r.values, Arr) and converted(r.values, k)):
+            return "DataFrame", "values are not converted: %r" % (r.values,)
+        return "DataFrame", None
+
+    def configs(key):
+        cls = key.split(".")[0]
+        for p in (hyd_members if cls == "HydParam" else qual_members):
+            for u in ("GPM", "LPS"):
+                for flag in ((False, True) if cls == "HydParam" else (0, 1)):
+                    kw = dict(darcy_weisbach=flag) if cls == "HydParam" else dict(mass_units=mass_obj("mg"), reaction_order=flag)
+                    yield "%s.%s/%s/%s" % (cls, p, u, flag), Obj("%s.%s" % (cls, p), {}, cls), unit_obj(u), kw
+
+    KINDS = ("dict", "list", "ndarray", "dataframe")     # tuples are not documented inputs: tuple * int repeats, tuple * float raises
+    behaviour = {}
     for key, fn in fns.items():
-        kinds = {}
-        for n in walk(fn):
-            if isinstance(n, ast.If) and isinstance(n.test, ast.Call) and call_name(n.test) == "isinstance" and dotted(n.test.args[0]) == "data":
-                t = unparse(n.test.args[1])
-                kind = "dict" if t == "dict" else ("list" if t == "list" else ("dataframe" if "DataFrame" in t else t))
-                arr = [c for s in n.body for c in calls(s) if call_name(c) in ("np.array", "numpy.array", "np.asarray")]
-                kinds[kind] = (n, arr)
-        shapes[key] = set(kinds)
-        if "dict" in kinds:
-            n, arr = kinds["dict"]
-            okd = bool(arr) and not (isinstance(arr[0].args[0], ast.Call) and last_attr(arr[0].args[0]) == "values")
-            chk.expect(okd, "R-C17-3", "%s: dict values are materialised as a list before np.array" % key, loc(fn, n),
-                       "np.array(data.values()) builds a 0-d object array: every arithmetic on it raises TypeError, so dictionaries are not accepted",
-                       expected="np.array(list(data.values()))", found=norm(arr[0]) if arr else "no np.array in the dict branch")
-            keys_saved = any(isinstance(s, ast.Assign) and "data.keys()" in unparse(s.value) for s in n.body)
-            back = [s for s in walk(fn) if isinstance(s, ast.Assign) and isinstance(s.value, ast.Call) and call_name(s.value) == "dict" and "zip" in unparse(s.value)]
-            chk.expect(keys_saved and bool(back), "R-C17-3", "%s: dict result is rebuilt with the original keys" % key, loc(fn, n))
-        else:
-            chk.bad("R-C17-3", "%s handles dictionaries" % key, loc(fn), "no isinstance(data, dict) branch")
-        if "list" in kinds:
-            back = [s for s in walk(fn) if isinstance(s, ast.Assign) and isinstance(s.value, ast.Call) and call_name(s.value) == "list" and dotted(s.value.args[0]) == "data"]
-            chk.expect(bool(back), "R-C17-3", "%s: list input is returned as a list" % key, loc(fn))
-        else:
-            chk.bad("R-C17-3", "%s handles lists" % key, loc(fn), "no isinstance(data, list) branch")
-    base = shapes["HydParam._from_si"] - {"dataframe"}
-    for key, sset in shapes.items():
-        chk.expect(sset - {"dataframe"} == base, "R-C17-3", "%s handles the same container kinds as its siblings" % key, loc(fns[key]), expected=sorted(base), found=sorted(sset))
-    chk.floor("R-C17-3", 4 * 4)
+        res = {kind: {"types": set(), "raised": [], "wrong": []} for kind in KINDS}
+        for cfg, selfobj, unit, kw in configs(key):
+            k = evaluate(fn, selfobj, unit, **kw).k
+            for kind in KINDS:
+                try:
+                    r = interpret(fn, selfobj, unit, make_input(kind), **kw)
+                except ProgError as e:
+                    res[kind]["types"].add("raises")
+                    res[kind]["raised"].append("%s: %s" % (cfg, e))
+                    continue
+                t, wrong = outcome(kind, r, k)
+                res[kind]["types"].add(t)
+                if wrong:
+                    res[kind]["wrong"].append("%s: %s" % (cfg, wrong))
+        behaviour[key] = {kind: "/".join(sorted(res[kind]["types"])) + ("(wrong values)" if res[kind]["wrong"] else "") for kind in KINDS}
+        d, l = res["dict"], res["list"]
+        chk.expect(not d["raised"], "R-C17-3", "%s: dict values are materialised as a list before np.array" % key, loc(fn),
+                   "a dictionary must be accepted: np.array(data.values()) builds a 0-d object array, every arithmetic on it raises TypeError",
+                   expected="no exception for any parameter / unit", found=d["raised"][:2] or None)
+        chk.expect(not d["raised"] and not d["wrong"], "R-C17-3", "%s: dict result is rebuilt with the original keys" % key, loc(fn),
+                   "dict in -> dict out, same keys, every value converted with the factor of the scalar case", found=(d["wrong"] or d["raised"])[:2] or None)
+        chk.expect(not l["raised"] and not l["wrong"], "R-C17-3", "%s: list input is returned as a list" % key, loc(fn),
+                   "list in -> list out, every element converted in order", found=(l["wrong"] or l["raised"])[:2] or None)
+        f = res["dataframe"]
+        chk.expect(not f["raised"] and not f["wrong"], "R-C17-3", "%s: DataFrame input is returned as a DataFrame with its labels" % key, loc(fn),
+                   found=(f["wrong"] or f["raised"])[:2] or None)
+    votes = {}
+    for key in fns:
+        votes.setdefault(tuple(sorted(behaviour[key].items())), []).append(key)
+    base = dict(max(votes, key=lambda b: (len(votes[b]), "HydParam._from_si" in votes[b])))      # what most of the four do
+    for key in fns:
+        chk.expect(behaviour[key] == base, "R-C17-3", "%s handles the same container kinds as its siblings" % key, loc(fns[key]),
+                   "result type per input kind (dict, list, ndarray, DataFrame), compared with what most of the four methods do", expected=base, found=behaviour[key])
+    chk.floor("R-C17-3", 4 * 5)
 
     # ---------------------------------------------------------------- R-C17-4 dispatch
     for fname, meth, unitarg in (("to_si", "_to_si", "from_units"), ("from_si", "_from_si", "to_units")):
@@ -357,4 +819,47 @@ WITNESSES = [
     dict(name="reorder-preserving", file=UTIL, old="                data = data * (0.001 * 0.3048)  # 1e-3 ft to m", new="                data = data * (0.3048 * 0.001)  # 1e-3 ft to m", silent=True),
     dict(name="length-via-temp-preserving", file=UTIL, old="                data = data * 0.3048  # ft to m\n\n        elif self in [HydParam.HeadLoss]:",
          new="                ft = 0.3048\n                data = ft * data  # ft to m\n\n        elif self in [HydParam.HeadLoss]:", silent=True),
+    # ---- R-C17-3 (containers): mutations
+    dict(name="list-result-left-as-array", file=UTIL,
+         old="        if original_data_type  == 'dict':\n            data = dict(zip(data_keys, data))\n        elif original_data_type == 'list':\n            data = list(data)\n",
+         new="        if original_data_type  == 'dict':\n            data = dict(zip(data_keys, data))\n", rule="R-C17-3"),
+    dict(name="dict-rebuilt-with-positions-instead-of-keys", file=UTIL,
+         old="            data = pd.DataFrame(data, columns=data_columns, index=data_index)\n        elif original_data_type == 'dict':\n            data = dict(zip(data_keys, data))",
+         new="            data = pd.DataFrame(data, columns=data_columns, index=data_index)\n        elif original_data_type == 'dict':\n            data = dict(enumerate(data))", rule="R-C17-3"),
+    dict(name="list-branch-missing-in-one-sibling", file=UTIL,
+         old="        # Convert to array for conversion\n        original_data_type = None\n        if isinstance(data, dict):\n            original_data_type = 'dict'\n            data_keys = data.keys()\n"
+             "            data = np.array(list(data.values()))\n        elif isinstance(data, list):\n            original_data_type = 'list'\n            data = np.array(data)\n",
+         new="        # Convert to array for conversion\n        original_data_type = None\n        if isinstance(data, dict):\n            original_data_type = 'dict'\n            data_keys = data.keys()\n"
+             "            data = np.array(list(data.values()))\n", rule="R-C17-3"),
+    dict(name="dataframe-index-dropped", file=UTIL, old="            data = pd.DataFrame(data, columns=data_columns, index=data_index)",
+         new="            data = pd.DataFrame(data, columns=data_columns)", rule="R-C17-3"),
+    dict(name="dict-values-attached-to-the-wrong-keys", file=UTIL,
+         old="        elif original_data_type == 'list': \n            data = list(data)",
+         new="        elif original_data_type == 'list': \n            data = list(data)\n        if original_data_type == 'dict':\n            data = dict(zip(data_keys, list(data.values())[::-1]))", rule="R-C17-3"),
+    # ---- R-C17-3: behaviour-preserving reshapes of the container prologue / epilogue
+    dict(name="containers-extracted-into-helpers-preserving", file=UTIL,
+         old="        # Convert to array for conversion\n        original_data_type = None\n        if isinstance(data, dict):\n            original_data_type = 'dict'\n            data_keys = data.keys()\n"
+             "            data = np.array(list(data.values()))\n        elif isinstance(data, list):\n            original_data_type = 'list'\n            data = np.array(data)\n",
+         new="        data, original_data_type, data_keys = _w_flatten(data)\n",
+         also=[("        if original_data_type  == 'dict':\n            data = dict(zip(data_keys, data))\n        elif original_data_type == 'list':\n            data = list(data)\n            \n        return data\n\n\nclass StatisticsType(enum.Enum):",
+                "        return _w_restore(data, original_data_type, data_keys)\n\n\n"
+                "def _w_flatten(data):\n    if isinstance(data, dict):\n        return np.array(list(data.values())), 'dict', data.keys()\n    if isinstance(data, list):\n        return np.array(data), 'list', None\n    return data, None, None\n\n\n"
+                "def _w_restore(data, kind, keys):\n    if kind == 'dict':\n        return dict(zip(keys, data))\n    if kind == 'list':\n        return list(data)\n    return data\n\n\nclass StatisticsType(enum.Enum):")],
+         silent=True),
+    dict(name="restore-helper-returning-from-a-loop-preserving", file=UTIL,      # not inlinable by the normaliser: the evaluator follows the call
+         old="        if original_data_type  == 'dict':\n            data = dict(zip(data_keys, data))\n        elif original_data_type == 'list':\n            data = list(data)\n            \n        return data\n\n\nclass StatisticsType(enum.Enum):",
+         new="        return _w_restore(data, original_data_type, data_keys if original_data_type == 'dict' else None)\n\n\n"
+             "def _w_restore(data, kind, keys):\n    for name in ('dict', 'list'):\n        if kind == name:\n            if name == 'dict':\n                return {k: v for k, v in zip(keys, data)}\n            return [v for v in data]\n    return data\n\n\nclass StatisticsType(enum.Enum):",
+         silent=True),
+    dict(name="epilogue-comprehensions-and-early-returns-preserving", file=UTIL,
+         old="            data = pd.DataFrame(data, columns=data_columns, index=data_index)\n        elif original_data_type == 'dict':\n            data = dict(zip(data_keys, data))\n        elif original_data_type == 'list':\n            data = list(data)\n",
+         new="            return pd.DataFrame(data, columns=data_columns, index=data_index)\n        if original_data_type == 'dict':\n            out = {}\n            for key, value in zip(data_keys, data):\n                out[key] = value\n            return out\n"
+             "        if original_data_type == 'list':\n            return [value for value in data]\n",
+         silent=True),
+    dict(name="prologue-tuple-isinstance-preserving", file=UTIL,
+         old="        # Convert to array for conversion\n        original_data_type = None\n        if isinstance(data, dict):\n            original_data_type = 'dict'\n            data_keys = data.keys()\n"
+             "            data = np.array(list(data.values()))\n        elif isinstance(data, list):\n            original_data_type = 'list'\n            data = np.array(data)\n",
+         new="        original_data_type = None\n        if isinstance(data, (dict, list)):\n            original_data_type = 'dict' if isinstance(data, dict) else 'list'\n            if original_data_type == 'dict':\n                data_keys = list(data)\n"
+             "            data = np.asarray([data[k] for k in data_keys] if original_data_type == 'dict' else data)\n",
+         silent=True),
 ]
